@@ -91,6 +91,15 @@ def make_case(rc, k=[0]):
             e = I.executor(cls)
             if list(cls().get_titles().items()) != [(TITLES[i], i) for i in range(len(planted))]:
                 fail = 'the translated class reports the titles %r' % (cls().get_titles(),)
+            # sizes and titles belong to the workbook, not to a run: an override far outside the used range on one executor must not
+            # change what a NEW object of the same class reports
+            sizes0 = [dict(x) for x in cls().get_sheets_size()]
+            e_far = I.executor(cls)
+            e_far.set_cells([I.Cell(0, 40, 50, 1)])
+            I.outcome(lambda: e_far.get_cell(I.Cell(0, 40, 50)).value)
+            if [dict(x) for x in cls().get_sheets_size()] != sizes0 or dict(cls().get_titles()) != {TITLES[i]: i for i in range(len(planted))}:
+                fail = 'after another executor of the same class was given a far-away override, a new object reports sizes %r (workbook: %r)' % (
+                    cls().get_sheets_size(), sizes0)
             for i, m in enumerate(planted):
                 if fail:
                     break
